@@ -30,7 +30,7 @@ RULE = (
     "state-dedup BFS over all histories of the 12-letter alphabet (5 ways to make the inverse, add_/copy_ edits, setter "
     "replace, recondition, update on either object, evaluation through __call__) up to the tier depth, for every "
     "invertible class x D x parameter kind (Parameter / fixed tensor / callable); distinct = concrete content of all "
-    "parameters and buffers of both objects + sharing topology + reference flags; every new state is judged in both "
+    "parameters and buffers of both objects (buffer p only while its owner is up to date) + sharing topology + reference flags; every new state is judged in both "
     "composition orders; non-trivial = an inverse exists, the judgement is defined and the forward map moves a probe by "
     "> 1e-3; plus amplitude-pair order tests of the velocity models and ExpFlow on larger grids"
 )
@@ -43,8 +43,8 @@ ASSUMPTIONS = [
     "after the forward parameters were replaced (setter / recondition) an inverse made with link=False is not judged until a new inverse is made "
     "(documentation: shared tensors may be replaced); tensor()-level judgement only where the documentation says buffers are current",
 ]
-MIN_NONTRIVIAL = {"quick": 6000, "thorough": 30000}
-MIN_OUTCOMES = {"quick": 900, "thorough": 4000}
+MIN_NONTRIVIAL = {"quick": 2000, "thorough": 12000}
+MIN_OUTCOMES = {"quick": 900, "thorough": 2500}
 MIN_SUB_TRACES = {"history": 3000, "order": 30, "expflow": 24}
 
 EPS32 = 2.0 ** -23
